@@ -620,7 +620,7 @@ class TimeseriesBlocks:
         ref_pos = self.dset.obs.dsite_pos.ref_pos[idx]
         if ref_pos.shape[0] == 1: # only one reference station coordinate entry are given
             # Index the plain array: a one-row position array does not return its row for index 0
-            ref_pos = Position(np.asarray(ref_pos)[0], system="trs")
+            ref_pos = Position(np.asarray(ref_pos.trs)[0], system="trs")
         else: 
             ref_pos = ref_pos[0]
 
